@@ -690,6 +690,31 @@ func (e *Env) call(x *SExpr) Val {
 			return e.fail("within of non-slices")
 		}
 		return boolVal(and(eq(a.Sl[0], b.Sl[0]), sx("bvsle", b.Sl[1], a.Sl[1]), sx("bvsle", i64(0), a.Sl[2]), sx("bvsle", bvAdd(a.Sl[1], a.Sl[2]), bvAdd(b.Sl[1], b.Sl[2]))))
+	case "lockepoch":
+		// lockepoch("path"): how many times the mutex has been acquired so far in this function; two
+		// program points with the same epoch and the mutex held lie in one critical section
+		if len(x.Args) != 1 || x.Args[0].Op != "str" || e.st == nil {
+			return e.fail("lockepoch(\"mutex access path\")")
+		}
+		n := e.st.locks["#n:"+x.Args[0].Name]
+		if n < 0 {
+			return intVal(vc.sc.fresh("epoch.unknown", sortIdx))
+		}
+		return intVal(i64(int64(n)))
+	case "held", "heldw":
+		// held("path") / heldw("path"): the mutex with this source access path is held on every path
+		// reaching this point (heldw: in write mode). Lockset state of the function under verification.
+		if len(x.Args) != 1 || x.Args[0].Op != "str" || e.st == nil {
+			return e.fail("held(\"mutex access path\")")
+		}
+		m := e.st.locks[x.Args[0].Name]
+		if m == 3 {
+			m = 0
+		}
+		if name == "heldw" {
+			return boolVal(map[bool]string{true: "true", false: "false"}[m == 2])
+		}
+		return boolVal(map[bool]string{true: "true", false: "false"}[m >= 1])
 	case "has":
 		// has(m, k): key k is present in map m
 		m, k := argv(0), argv(1)
